@@ -5,6 +5,7 @@ import (
 	"fmt"
 	sharedConfig "lunar/shared-model/config"
 	"lunar/toolkit-core/urltree"
+	"strings"
 
 	"github.com/rs/zerolog/log"
 )
@@ -28,7 +29,11 @@ func BuildEndpointPolicyTree(
 		}
 		var endpointPolicy *map[urltree.Method]EndpointPolicy
 		existingEndpointPolicy := endpointPolicyTree.Lookup(endpoint.URL)
-		if existingEndpointPolicy.Value != nil {
+		// extend the method map only of the very same declared URL; a lookup may also
+		// match a less specific pattern (parameter or wildcard) declared earlier,
+		// whose map must neither be modified nor shared
+		if existingEndpointPolicy.Value != nil &&
+			isDeclaredFor(*existingEndpointPolicy.Value, endpoint.URL) {
 			existingPolicy := *existingEndpointPolicy.Value
 			existingPolicy[urltree.Method(endpoint.Method)] = EndpointPolicy{
 				URL:       endpoint.URL,
@@ -56,6 +61,15 @@ func BuildEndpointPolicyTree(
 		}
 	}
 	return endpointPolicyTree, nil
+}
+
+// isDeclaredFor reports whether the method map is the one of the node declared for url
+// (all policies of a node carry the URL they were declared with)
+func isDeclaredFor(policies map[urltree.Method]EndpointPolicy, url string) bool {
+	for _, policy := range policies {
+		return strings.Trim(policy.URL, "./") == strings.Trim(url, "./")
+	}
+	return false
 }
 
 func newEndpointPolicyTree() *EndpointPolicyTree {
